@@ -5,6 +5,7 @@
    notification in two steps; waiter = counter increment, locked check-and-register, sleep, wake);
    `wrun (winit c) sched` executes an arbitrary schedule. *)
 From LR Require Import lib.Base model.Wait proofs.WaitP model.PipeSync proofs.PipeSyncP.
+From LR Require Import gen.Consts.
 
 (* No lost wake-up: in every reachable state, a sleeping waiter is registered, and either nothing became
    readable beyond the position it compared with, or a flush is still in progress (its notification has not
@@ -96,10 +97,11 @@ Print Assumptions C11_no_skip_dependency_refuted.
    re-checks Pos < LastKnwnPos under the pipe lock, so an event notified while it was finishing starts the next one *)
 Theorem C11_pipe_rearm : forall af tags pre c0 sched d,
   let s := run af tags (init pre c0) sched in
+  alive s = true ->   (* a deleted pipe's finishing worker starts no successor (startWorker: !pp.deleted) *)
   wrk s = None -> desc s = Some d -> p_chg d = false /\ p_lkp d <= p_pos d.
 Proof.
-  intros af tags pre c0 sched d s Hw Hd.
-  pose proof (r_wrk s (rearm_run af tags (init pre c0) sched (rearm_init pre c0))) as H.
+  intros af tags pre c0 sched d s Ha Hw Hd.
+  pose proof (r_wrk s (rearm_run af tags (init pre c0) sched Ha (rearm_init pre c0))) as H.
   unfold wrk_ok in H. rewrite Hw, Hd in H. exact H.
 Qed.
 Print Assumptions C11_pipe_rearm.
@@ -194,3 +196,8 @@ Example C11_rearm_nonvacuous :
   let s := run true [] (init [] 0) (sched_write [e] ++ [LTimeout; LWork]) in
   wrk s = None /\ desc s = Some {| p_pos := 1; p_lkp := 1; p_chg := false |}.
 Proof. vm_compute. split; reflexivity. Qed.
+
+(* the limit of WaitTimeout is backend.QueryMaxWaitTimeout as the source has it now (coq/gen/Consts.v is regenerated on every run) *)
+Example C11_constants : max_wait_timeout = Z.of_N go_QueryMaxWaitTimeout /\
+  wait_timeout_ok 60 = true /\ wait_timeout_ok 61 = false /\ wait_timeout_ok (-1) = false /\ wait_timeout_ok 0 = true.
+Proof. repeat split; reflexivity. Qed.
